@@ -124,29 +124,78 @@ def _worker_main():  # pragma: no cover - runs in the subprocess
     orig_fill = S.gaussian_fill
     calls: list[dict] = []
 
-    def rec_fill(n, nrow, ncol, cx, cy, std, mask, out, seed):
-        calls.append({"n": int(n), "nrow": int(nrow), "ncol": int(ncol), "cx": int(cx), "cy": int(cy), "std": float(std),
-                      "free": int(mask.sum()), "out0": int(out.sum()), "seed": int(seed)})
-        return orig_fill(n, nrow, ncol, cx, cy, std, mask, out, seed)
+    import inspect
+
+    # Stand-ins are transparent: they accept every calling convention of the callee they replace (arguments are bound with
+    # the callee's own signature), forward `*args, **kwargs` unchanged, and a failure of the *recording* is a harness
+    # problem (`rec_errors`, reported as a tool failure by the host) — never an exception inside the code under test.
+    rec_errors: list[str] = []
+    _fill_sig = inspect.signature(orig_fill)
+
+    def _bound(sig, args, kwargs):
+        ba = sig.bind(*args, **kwargs)
+        ba.apply_defaults()
+        return ba.arguments
+
+    def rec_fill(*args, **kwargs):
+        try:
+            v = list(_bound(_fill_sig, args, kwargs).values())       # by position in the callee's signature
+            n, nrow, ncol, cx, cy, std, mask, out, seed = v[:9]
+            calls.append({"n": int(n), "nrow": int(nrow), "ncol": int(ncol), "cx": int(cx), "cy": int(cy), "std": float(std),
+                          "free": int(np.asarray(mask).sum()), "out0": int(np.asarray(out).sum()), "seed": int(seed)})
+        except Exception as e:  # noqa: BLE001
+            rec_errors.append(f"gaussian_fill recorder: {type(e).__name__}: {e}"[:200])
+        return orig_fill(*args, **kwargs)
 
     S.gaussian_fill = rec_fill
+    _RS = np.random.RandomState
+
+    def _ints(x):
+        return [int(v) for v in np.atleast_1d(np.asarray(x)).reshape(-1)]
 
     class RecRS(np.random.RandomState):
         log: list = []
 
-        def seed(self, s=None):
-            self.log.append(["seed", None if s is None else [int(v) for v in s] if isinstance(s, (tuple, list)) else [int(s)]])
-            return super().seed(s)
+        def seed(self, *args, **kwargs):
+            try:
+                s = args[0] if args else kwargs.get("seed")
+                self.log.append(["seed", None if s is None else _ints(s)])
+            except Exception as e:  # noqa: BLE001
+                rec_errors.append(f"seed recorder: {type(e).__name__}: {e}"[:200])
+            return super().seed(*args, **kwargs)
 
-        def randint(self, low, high=None, *a, **k):
-            r = super().randint(low, high, *a, **k)
-            self.log.append(["randint", int(low), int(high), int(r)])
+        def randint(self, *args, **kwargs):
+            r = super().randint(*args, **kwargs)
+            try:
+                low = args[0] if args else kwargs.get("low")
+                high = args[1] if len(args) > 1 else kwargs.get("high")
+                if high is None:
+                    low, high = 0, low
+                self.log.append(["randint", int(low), int(high), int(np.asarray(r).reshape(-1)[0])])
+            except Exception as e:  # noqa: BLE001
+                rec_errors.append(f"randint recorder: {type(e).__name__}: {e}"[:200])
             return r
 
-        def choice(self, a, size=None, replace=True, p=None):
-            r = super().choice(a, size=size, replace=replace, p=p)
-            self.log.append(["choice", int(len(a)), int(size), bool(replace), int(np.count_nonzero(p)),
-                             [int(v) for v in np.atleast_1d(r)]])
+        def choice(self, *args, **kwargs):
+            r = super().choice(*args, **kwargs)
+            try:
+                # the request by its semantics: population size (an int n stands for arange(n)), size, replace, support of p
+                a = args[0] if args else kwargs.get("a")
+                size = args[1] if len(args) > 1 else kwargs.get("size")
+                replace = args[2] if len(args) > 2 else kwargs.get("replace", True)
+                p = args[3] if len(args) > 3 else kwargs.get("p")
+                arr = np.asarray(a)
+                npop = int(arr) if arr.ndim == 0 else int(arr.shape[0])
+                nsize = 1 if size is None else int(np.prod(size))
+                support = npop if p is None else int(np.count_nonzero(np.asarray(p)))
+                vals = _ints(r)
+                if arr.ndim == 1 and not np.array_equal(arr, np.arange(npop)):
+                    # a population other than 0..n-1: record positions, not values
+                    pos = {int(v): i for i, v in enumerate(arr.tolist())}
+                    vals = [pos.get(v, -1) for v in vals]
+                self.log.append(["choice", npop, nsize, bool(replace), support, vals])
+            except Exception as e:  # noqa: BLE001
+                rec_errors.append(f"choice recorder: {type(e).__name__}: {e}"[:200])
             return r
 
     libc = ctypes.CDLL("libc.so.6")
@@ -275,15 +324,18 @@ def _worker_main():  # pragma: no cover - runs in the subprocess
                     self.w = torch.nn.Parameter(torch.zeros(1))
                     self.seen = []
 
-                def forward(self, masked_kspace=None, sampling_mask=None, sensitivity_map=None):
+                def forward(self, *a, **k):
                     # vSHARP-style model: a list of images; the engines re-implement the training step around it
+                    got = dict(zip(["masked_kspace", "sampling_mask", "sensitivity_map"], a))
+                    got.update(k)
+                    masked_kspace, sampling_mask = got["masked_kspace"], got["sampling_mask"]
                     self.seen.append((masked_kspace.detach().clone(), sampling_mask.detach().clone()))
                     return [self._pred + self.w * 0]
 
             if which.startswith("vsharp"):
                 from direct.nn.vsharp.vsharp_engine import VSharpNetJSSLEngine, VSharpNetSSLEngine
 
-                ident = lambda x, dim=None, **kw: x  # noqa: E731 - identity operators keep the integer probes exact
+                ident = lambda x, *a, **kw: x  # noqa: E731 - identity operators keep the integer probes exact
                 cls = VSharpNetSSLEngine if which == "vsharp_ssl" else VSharpNetJSSLEngine
                 eng = cls(OmegaConf.structured(DefaultConfig), Net(), "cpu", forward_operator=ident, backward_operator=ident)
             else:
@@ -372,7 +424,10 @@ def _worker_main():  # pragma: no cover - runs in the subprocess
             eng.model.train()
             rec = []
 
-            def loss(out, tgt, reduction="mean", recon=None):
+            def loss(*a, **k):
+                # a loss function as the engines call it: (source, target, …) positionally or by name
+                out = a[0] if a else k.get("source", k.get("input"))
+                tgt = a[1] if len(a) > 1 else k.get("target")
                 rec.append((out.detach().clone(), tgt.detach().clone()))
                 return (out * 0).sum()
 
@@ -409,11 +464,14 @@ def _worker_main():  # pragma: no cover - runs in the subprocess
                 super().__init__()
                 self.w = torch.nn.Parameter(torch.zeros(1))
 
-            def forward(self, masked_kspace=None, sampling_mask=None, sensitivity_map=None):
-                rec.append([int(masked_kspace.flatten()[0]), 0 if sampling_mask is None else int(sampling_mask.flatten()[0])])
+            def forward(self, *a, **k):
+                # which tensors arrive, whatever the calling convention: the k-space marker is 1 / 2, the mask marker 3 / 4
+                vals = [int(v.flatten()[0]) for v in list(a) + list(k.values()) if isinstance(v, torch.Tensor)]
+                masked_kspace = next(v for v in list(a) + list(k.values()) if isinstance(v, torch.Tensor))
+                rec.append([next((v for v in vals if v in (1, 2)), -1), next((v for v in vals if v in (3, 4)), 0)])
                 return masked_kspace * 0
 
-        ident = lambda x, dim=None, **kw: x  # noqa: E731
+        ident = lambda x, *a, **kw: x  # noqa: E731
         rows = []
         for mod, cls in case["sites"]:
             eng = getattr(importlib.import_module(mod), cls)(OmegaConf.structured(DefaultConfig), Net(), "cpu",
@@ -683,7 +741,11 @@ def _worker_main():  # pragma: no cover - runs in the subprocess
         ln = ln.strip()
         if not ln:
             continue
-        real_out.write(json.dumps(run_case(json.loads(ln))) + "\n")
+        del rec_errors[:]
+        ans = run_case(json.loads(ln))
+        if rec_errors:
+            ans["rec_errors"] = list(rec_errors)
+        real_out.write(json.dumps(ans) + "\n")
         real_out.flush()
 
 
@@ -752,6 +814,10 @@ class _Worker:
             self.close()
             self.restarts += 1
             return {"ok": False, "err": "Timeout", "msg": f"no answer within {timeout} s", "calls": [], "log": []}
+        if res.get("rec_errors"):
+            # a recorder of the harness failed: that says nothing about the code under test
+            self.close()
+            raise ToolFailure(f"C11 harness stand-in failed: {res['rec_errors'][:3]}")
         return res
 
     def close(self):
